@@ -234,7 +234,16 @@ func ringCollapse(t model.Tree, o opts) bool {
 			same := true
 			for j := 0; j < d; j++ {
 				p := precFor(o, t.CT, j)
-				if snap(r.Coords[j], p)[0] != snap(r.Coords[(n-2)*d+j], p)[0] {
+				// the two ordinates may snap to the same integer (any admissible candidate)
+				common := false
+				for _, a := range snap(r.Coords[j], p) {
+					for _, b := range snap(r.Coords[(n-2)*d+j], p) {
+						if a == b {
+							common = true
+						}
+					}
+				}
+				if !common {
 					same = false
 				}
 			}
